@@ -8,8 +8,11 @@
   in-process and under three `PYTHONHASHSEED`s in subprocesses, `harness/props/C10.py`).
 
   INDEPENDENCE OF INCIDENTAL ORDER.  The theorems below are the index mechanics the property is
-  about, each for all inputs:
-    * constraints in any order            `feasible_perm_constraints`
+  about, each for all inputs (what exactly is proved for the FULL simulator model `Acn.Sim`, per
+  relation / output / scheduler class / hypothesis, is tabulated at the top of `section simulator`):
+    * constraints in any order            `feasible_perm_constraints` (the network-side check),
+                                          `run_perm_constraints` (the WHOLE simulator with the modelled sorted
+                                          algorithms: the rows reach `Sim` only through the scheduler)
     * stations in any order               `feasible_perm_stations`, `densify_equivariant`,
                                           `updateSchedules_equivariant`, `run_equivariant_stations` (the WHOLE
                                           simulator `Acn.Sim.run`), `run_equivariant_stations_partial` (core only,
@@ -17,11 +20,14 @@
     * ties in a sort key                  `sort_perm_of_distinct_keys`
     * sessions / events in any order      `popCurrent_perm`, `plugins_commute`, `unplugs_commute`,
                                           `eventsStage_perm`, `run_perm_sessions` (the WHOLE simulator),
+                                          `run_perm_sessions_sorted` (… with the sorted / uncontrolled algorithms),
                                           `run_perm_sessions_core`, `run_perm_sessions_partial` (event core)
     * time shift by `k` periods           `updateSchedules_shift`, `run_shift` (the WHOLE simulator, `max_recompute`
                                           = None), `run_shift_anchored` (any `max_recompute`, an event in period 0),
+                                          `run_shift_aligned` (`max_recompute = m`, `m ∣ k`, no event needed),
                                           `run_shift_from` (from any related states, errors included);
-                                          event core only: `body_shift`, `run_shift_partial`
+                                          event core only: `body_shift`, `run_shift_partial` (None),
+                                          `run_shift_core` (every `max_recompute`, errors included)
   `σ` is a list of station numbers that is a permutation of `0..n-1`; `reidx σ l d` reads the
   per-station list `l` in that order.  Helper lemmas: `AcnProofs/Lemmas/Equiv*.lean`.
 -/
@@ -30,6 +36,8 @@ import AcnProofs.Lemmas.EquivShift
 import AcnProofs.Lemmas.EquivSimRun
 import AcnProofs.Lemmas.EquivSimShiftCap
 import AcnProofs.Lemmas.EquivSimSessionsRun
+import AcnProofs.Lemmas.EquivSimShiftAligned
+import AcnProofs.Lemmas.EquivSimSorted
 import AcnProofs.C08
 
 set_option linter.unusedSectionVars false
@@ -211,13 +219,18 @@ theorem eventsStage_perm {cfg cfg' : Cfg} (hv : Valid cfg) (hp : CfgPerm cfg cfg
   rw [← h1']
   simp only [eventsStage, processAll_perm hv hp]
 
-/- FULL STATEMENT (not proved; the numeric layer `Acn.Sim` is not covered):
-     for `Sim.Cfg`s that differ by a permutation of `evs` / `recomputes` and a scheduler that maps
-     `View`s equal up to the order of … to equal schedules,
+/- FULL STATEMENT: for `Sim.Cfg`s that differ by a permutation of `evs` / `recomputes` and a scheduler
+     that maps `View`s equal up to `EVSE.current_pilot` to equal schedules,
      `Sim.run cfg' sched n (Sim.init cfg')` and `Sim.run cfg sched n (Sim.init cfg)` have the same
      `pilots`, `rates`, `peak`, per-session energies, and `CoreEquiv` cores.
-   PROVED: the event core of the run (everything except pilots/rates/energies), for every Valid
-   scenario, every fuel, every non-failing scheduler / pilot application. -/
+   That statement IS proved below, for completing runs: `run_perm_sessions` (section `sessions_full`;
+   scripted / empty schedulers) and `run_perm_sessions_sorted` (the modelled sorted and uncontrolled
+   algorithms).  For runs that raise only the error-free core part is compared (`run_perm_sessions_core`).
+   THIS theorem (kept under its historical name `…_partial`; it is the event-core layer of the
+   capstone, not a weaker substitute for it): the event core of the run (everything except
+   pilots/rates/energies), for every Valid scenario — INCLUDING a permuted station table, which the
+   Sim-level theorem does not combine with the session permutation —, every fuel, every non-failing
+   scheduler / pilot application. -/
 /-- The whole run of the event core over permuted session / recompute / station tables ends in
     equivalent states: same iteration, occupancy, flags and scheduler invocation periods; queue
     and histories equal as multisets (their order is fixed up to ties by `history_sorted`, C01). -/
@@ -236,12 +249,14 @@ example : Valid exCfg ∧ CfgPerm exCfg exCfg'
     ∧ (run exCfg noFail noFail 10 (init exCfg)).1.invoked = [0, 2, 3] := by
   refine ⟨exCfg_valid, exCfg_perm, by decide, by decide, by decide⟩
 
-/- FULL STATEMENT (not proved): `Sim.run (σ·cfg) sched' = σ·(Sim.run cfg sched)` keyed by station id
-   for an equivariant scheduler, i.e. pilots / rates rows permuted, `evsePilot` permuted, energies,
-   peak (as a sum over a permuted list) and core equal.
-   PROVED: the event core does not see the station ORDER at all (literally the same function), and
-   the matrix side is `updateSchedules_equivariant` / `densify_equivariant` /
-   `feasible_perm_stations` above. -/
+/- FULL STATEMENT: `Sim.run (σ·cfg) sched' = σ·(Sim.run cfg sched)` keyed by station id for an equivariant
+   scheduler, i.e. pilots / rates rows permuted, `evsePilot` permuted, energies, peak (as a sum over a
+   permuted list) and core equal.
+   That statement IS proved below for completing runs and a constant noise stream:
+   `run_equivariant_stations` (section `simulator`; the two hypotheses are necessary, see there).
+   THIS theorem (historical name `…_partial`) is its event-core layer and is stronger on that layer:
+   the event core does not see the station ORDER at all (literally the same function) — from any
+   state, with failing schedulers / pilot applications, errors included. -/
 /-- Registering the stations in another order does not change the event core of the run at all:
     any state, any fuel, any scheduler / pilot application (failing ones included). -/
 theorem run_equivariant_stations_partial (cfg : Cfg) (st' : List String) (h : ∀ s, s ∈ st' ↔ s ∈ cfg.stations)
@@ -282,11 +297,16 @@ theorem initPending_shift (k : Nat) (cfg : Cfg) :
   simp only [initPending, shiftCfg, List.map_append, List.map_map]
   rfl
 
-/- FULL STATEMENT (not proved): for every `maxRecompute` (with `some m` the periodic invocations
-   before the first event are anchored at period 0, so the statement needs "an event at period 0" or
-   `k ≡ 0 mod m`), and for `Sim.run`: pilots / rates = `shiftMat k` of the original ones
-   (`updateSchedules_shift` is the matrix step), energies and peak equal.
-   PROVED: the event core, `maxRecompute = none`. -/
+/- FULL STATEMENT: for every `maxRecompute` (with `some m` the periodic invocations before the first
+   event are anchored at period 0, so the statement needs "an event at period 0" or `m ∣ k`), and for
+   `Sim.run`: pilots / rates = `shiftMat k` of the original ones (`updateSchedules_shift` is the matrix
+   step), energies and peak equal.
+   PROVED ELSEWHERE IN THIS FILE: event core, every `maxRecompute`, errors included — `run_shift_core`
+   (next theorem); `Sim.run`: `run_shift` (None, errors included), `run_shift_anchored` (event in period
+   0), `run_shift_aligned` (`m ∣ k`) in section `shift`.  When neither an event in period 0 nor `m ∣ k`
+   holds the statement is FALSE (example after `run_shift_core`).
+   THIS theorem (historical name `…_partial`): the event core, `maxRecompute = none`, for a scheduler /
+   pilot application that may read everything in the core (also `invoked`, `_last_schedule_update`). -/
 /-- Shifting every session and recompute event by `k` periods shifts the run by `k`: after the `k`
     idle periods the shifted run is, step for step, the shift of the original run — event
     timestamps, invocation periods, `_last_schedule_update` and the iteration counter move by `k`,
@@ -322,11 +342,119 @@ example : exCfg.maxRecompute = some 2 ∧ initPending { exCfg with maxRecompute 
         = [0, 2, 3] := by
   refine ⟨rfl, by decide, by decide, by decide⟩
 
+open Acn.SimShift in
+/-- EVENT CORE, EVERY `max_recompute`, ERRORS INCLUDED.  `Aligned k cfg`: `max_recompute = None`, or
+    something is due in period 0 of the original scenario, or `max_recompute = m` with `m = 0 ∨ m ∣ k`.
+    Then the shifted run (with `k` more units of fuel) stops with the same error as the original run
+    and ends in `sh k V ·` of the original final state — every timestamp moved by `k`, the idle
+    invocations `V` of the prefix in front of `invoked` — up to `_last_schedule_update`, and EXACTLY
+    in that state unless period 0 of the original run raised (a raise in the very first period keeps
+    the `_last_schedule_update` of the idle prefix).
+    The scheduler / pilot application are arbitrary (failing ones included) functions of the core that
+    cannot tell the shifted state from the original (`hs`, `ha`: for every record `V` of earlier
+    invocations), do not read `_last_schedule_update` (`hsL`; the pilot application may) and do nothing
+    while nothing has happened (`hidle`). -/
+theorem run_shift_core (k : Nat) (cfg : Cfg) {sched sched' apply apply' : Core → Option Err}
+    (hs : ∀ V c, sched' (sh k V c) = sched c) (ha : ∀ V c, apply' (sh k V c) = apply c)
+    (hsL : ∀ L c, sched' (setLUc L c) = sched' c)
+    (hidle : ∀ d : Core, d.resolve = false → d.iter < k → (∀ e ∈ d.pending, (d.iter : Int) < e.ts) →
+      sched' d = none ∧ apply' d = none)
+    (hne : initPending cfg ≠ []) (hnn : ∀ e ∈ initPending cfg, 0 ≤ e.ts) (hal : Aligned k cfg) (n : Nat) :
+    ∃ V,
+      (∃ L, run (shiftCfg k cfg) sched' apply' (k + (n + 1)) (init (shiftCfg k cfg)) =
+        (setLUc L (sh k V (run cfg sched apply (n + 1) (init cfg)).1), (run cfg sched apply (n + 1) (init cfg)).2)) ∧
+      ((body cfg sched apply (init cfg)).2 = none →
+        run (shiftCfg k cfg) sched' apply' (k + (n + 1)) (init (shiftCfg k cfg)) =
+          (sh k V (run cfg sched apply (n + 1) (init cfg)).1, (run cfg sched apply (n + 1) (init cfg)).2)) :=
+  run_shift_core' k cfg hs ha hsL hidle hne hnn hal n
+
+/-- nothing is due in period 0, `max_recompute = 2` -/
+def exCfgLate : Cfg :=
+  { stations := ["A", "B"], sessions := [⟨"x", "A", 1, 3⟩, ⟨"y", "B", 2, 6⟩], recomputes := [(3, "r0")],
+    maxRecompute := some 2 }
+
+open Acn.SimShift in
+/-- the hypotheses of `run_shift_core` are satisfiable WITHOUT an event in period 0 (`k = 4`, `2 ∣ 4`):
+    the idle prefix records `V = [0, 2]`; and they are needed: for `k = 3` the shifted run is NOT
+    `V ++` the shifted original for the idle invocations `V = [0, 2]` (nor for any other `V`: it is
+    consulted in 5 but not in 3, the original in 0 and 1) -/
+example : Aligned 4 exCfgLate ∧ (∀ e ∈ initPending exCfgLate, 0 < e.ts) ∧ initPending exCfgLate ≠ []
+    ∧ (run exCfgLate noFail noFail 11 (init exCfgLate)).1.invoked = [0, 1, 2, 3, 5, 6]
+    ∧ (run (shiftCfg 4 exCfgLate) noFail noFail (4 + 11) (init (shiftCfg 4 exCfgLate))).1.invoked
+        = [0, 2] ++ [0, 1, 2, 3, 5, 6].map (· + 4)
+    ∧ (run (shiftCfg 3 exCfgLate) noFail noFail (3 + 11) (init (shiftCfg 3 exCfgLate))).1.invoked
+        = [0, 2, 4, 5, 6, 8, 9] := by
+  refine ⟨Or.inr (Or.inr ⟨2, rfl, Or.inr ⟨2, rfl⟩⟩), by decide, by decide, by decide, by decide, by decide⟩
+
 end events
 
 section simulator
 open Acn.Sim Acn.SimEquiv
 variable {K : Type} [Field K] [LinearOrder K] [IsStrictOrderedRing K] [HasExp K]
+
+/- AUDIT — what is proved for the FULL simulator model `Acn.Sim.run` (events + scheduling +
+   `_update_schedules` + `update_pilots` with the battery models + `_store_actual_charging_rates` + peak
+   + occupancy log), relation by relation.  "Outputs" are the fields of `Sim.State`:
+   pilots (`pilot_signals`), rates (`charging_rates`), evs (per-EV energy delivered / last rate /
+   battery), peak, core (iteration, queue, occupancy, `_resolve`, `_last_schedule_update`, event
+   history, `ev_history`, invocation periods), evsePilot (`EVSE.current_pilot`), noiseIdx, occLog.
+
+   (1) STATION REGISTRATION ORDER — `run_equivariant_stations`
+       outputs     pilots, rates, evsePilot, rows of occLog: σ-permuted (= equal keyed by station id);
+                   evs (energies, rates, batteries), peak, core, noiseIdx: EQUAL.
+       schedulers  any pair with `SchedEquivariant σ sched sched'`; INSTANCES PROVED: scripted by station
+                   name, `{}` (`scripted_schedEquivariant`).
+       hypotheses  `PermOK`: σ a permutation of the station numbers, station ids pairwise different,
+                   constant noise stream; the original run completes (no raise).  Both are necessary:
+                   draws are consumed in station order, and a raise of `update_pilots` leaves the
+                   stations BEFORE the offender charged.
+       NOT PROVED  `SchedEquivariant` for the modelled sorted / uncontrolled algorithms
+                   (`SimSorted.sortedSched`): they emit the schedule dict in station order, so the
+                   answers to permuted views are equal as dicts but not as association lists, which is
+                   what `SchedEquivariant` literally asks for; and the equivariance of the greedy / RR
+                   allocation for tie-free keys (`sort_perm_of_distinct_keys` is the sorting step only) is
+                   not composed.  Checked by the harness on implementation pairs only.
+                   Runs that raise; non-constant noise (genuinely order-dependent).
+   (2) CONSTRAINT ORDER
+       `Acn.Sim` has no constraint table.  The rows are read in two places of the real simulator:
+       (a) `network.is_feasible` inside `_update_schedules` — warning only, no state; its verdict is
+           order-free for every schedule: `feasible_perm_constraints` (section `feasibility`);
+       (b) the scheduler (`infrastructure_constraints_feasible`).  For the modelled sorted algorithms:
+           `run_perm_constraints` (section `constraints_sim`) — the two runs are LITERALLY EQUAL (every
+           output, every fuel, from every state, errors included).  Scripted / `{}` / uncontrolled
+           schedulers do not take the rows at all.
+       NOT PROVED  that `add_constraint` calls in another order yield a row permutation of
+                   (`constraint_matrix`, `magnitudes`) — that is C12 (`addConstraint_reindex`).
+   (3) SESSION / RECOMPUTE LISTING ORDER — `run_perm_sessions`, `run_perm_sessions_sorted`
+       outputs     pilots, rates, peak, evsePilot, noiseIdx, occLog: EQUAL; evs: equal per session id
+                   (`EvsPerm`: a permutation with pairwise different ids); core: `CoreEquiv` (iteration,
+                   occupancy, flags, invocation periods equal; queue and histories equal as multisets).
+       schedulers  any `SchedIgnoresEvsePilot`; INSTANCES PROVED: scripted, `{}`
+                   (`scripted_ignoresEvsePilot`), the sorted algorithms (greedy and round robin, all five
+                   sorts, `estimate_max_rate = False`) and uncontrolled charging
+                   (`run_perm_sessions_sorted`).  No distinct-keys hypothesis: `network.active_evs` is in
+                   STATION order whatever the listing order, so the view is the same.
+       hypotheses  `Valid` scenario (C01); the original run completes.
+       NOT PROVED  runs that raise: only `run_perm_sessions_core` (cores of two completing runs) /
+                   `run_perm_sessions_partial`; a station permutation combined with the session
+                   permutation in ONE Sim-level statement (compose (1) and (3)).
+   (4) TIME SHIFT BY `k` — `run_shift`, `run_shift_anchored`, `run_shift_aligned`, `run_shift_from`
+       outputs     pilots, rates: `shiftMat k` (k zero columns in front); core: every timestamp + k, the
+                   idle invocations `V` in front of `invoked`; evs: equal up to the shifted arrival /
+                   departure fields; occLog: k all-vacant rows in front; peak, evsePilot, noiseIdx: EQUAL.
+       schedulers  any pair `SchedShiftInvariant k` (relative time only; `last_applied_pilot_signals` is
+                   not related, DESIGN §8), for `max_recompute ≠ None` also `SchedIdle k` (answers `{}`
+                   while nothing is plugged in); INSTANCES PROVED: scripted in relative time, `{}`
+                   (`scripted_schedShiftInvariant`).
+       hypotheses  `ShiftOK` (an event exists, no negative timestamp, every EVSE accepts pilot 0), and
+                     `max_recompute = None`                       `run_shift`     errors INCLUDED
+                     any `max_recompute`, event in period 0       `run_shift_anchored`  completing runs
+                     `max_recompute = m`, `m = 0 ∨ m ∣ k`          `run_shift_aligned`   completing runs
+                   In the remaining case (`max_recompute = m`, nothing due in period 0, `m ∤ k`) the
+                   statement is false (example after `run_shift_core`).
+       NOT PROVED  `SchedShiftInvariant` for the sorted algorithms (they answer all-zero rows, not `{}`,
+                   while idle: `SchedIdle` fails for them as stated); raising runs for `max_recompute ≠
+                   None` at Sim level (the event core has them: `run_shift_core`). -/
 
 /-- CAPSTONE (stations).  Register the stations in the order `σ` (any permutation of the station
     numbers) and hand the simulator a scheduler pair that is `SchedEquivariant` (answers views that
@@ -512,6 +640,20 @@ theorem anchor_of_event (cfg : Cfg K) {e : Event} (he : e ∈ EventCore.initPend
   rw [hnil] at hm
   simp at hm
 
+/-- CAPSTONE (shift, `max_recompute = m`, ALIGNED, no event needed in period 0).  The original run
+    consults the scheduler in period 0 whatever happens (`_last_schedule_update is None`); when
+    `m ∣ k` (or `m = 0`: every period) the idle invocations of the shifted run fall on 0, m, 2m, …, so it
+    consults the scheduler in period `k` too, and that invocation erases the only difference the idle
+    prefix left behind.  Every run that completes on the original scenario completes on the shifted
+    one, and the final states are `ShEquiv k V pre` where `V` are the idle invocations. -/
+theorem run_shift_aligned (k : Nat) (cfg : Cfg K) (h : ShiftOK cfg)
+    {sched sched' : View K → Except EventCore.Err (Schedule K)} (hs : SchedShiftInvariant k sched sched')
+    (hsi : SchedIdle k sched') {m : Nat} (hm : cfg.maxRecompute = some m) (hdiv : m = 0 ∨ m ∣ k)
+    (n : Nat) (r : State K) (hr : Sim.run cfg sched (n + 1) (Sim.init cfg) = (r, none)) :
+    ∃ r' V, Sim.run (shiftCfgS k cfg) sched' (k + (n + 1)) (Sim.init (shiftCfgS k cfg)) = (r', none) ∧
+      ShEquiv k V (List.replicate k (noneRow cfg)) r r' :=
+  run_shift_aligned' h hs hsi hm hdiv n r hr
+
 /-- a scheduler that follows a script in RELATIVE time (and answers `{}` before the origin `k`) -/
 def scriptedRel (k : Nat) (script : List (Nat × Option (Schedule K))) (dflt : Schedule K) :
     View K → Except EventCore.Err (Schedule K) := fun v =>
@@ -547,6 +689,90 @@ example (cfg : Cfg K) (x : Evse.Ev K) (hx : cfg.evs = [x]) (hr : cfg.recomputes 
    by intro st hs'; rw [hst] at hs'; simp at hs'⟩
 
 end shift
+
+section shift_example
+open Acn.Sim Acn.SimShift
+
+local instance : HasExp ℚ := ⟨fun x => x⟩
+
+/-- stations A (0–32 A, 208 V) and B (levels 0/8/16 A, 240 V); session x on A in [1,4), y on B in [2,6),
+    both asking for more than they can get, ideal batteries, 5-minute periods; NOTHING due in period 0;
+    `max_recompute = 2` -/
+def exSimLate : Sim.Cfg ℚ :=
+  { stations := [⟨"A", .cont 0 (some 32), 208⟩, ⟨"B", .finite [0, 8, 16], 240⟩],
+    evs := [{ session := "x", station := "A", arrival := 1, departure := 4, estDeparture := 4, requested := 10,
+              delivered := 0, rate := 0,
+              batt := { capacity := 40, charge := 5, init := 5, maxPower := 7, power := 0, twoStage := false,
+                        noiseLevel := 0, ts := 0, cmode := .continuous } },
+            { session := "y", station := "B", arrival := 2, departure := 6, estDeparture := 5, requested := 10,
+              delivered := 0, rate := 0,
+              batt := { capacity := 40, charge := 5, init := 5, maxPower := 7, power := 0, twoStage := false,
+                        noiseLevel := 0, ts := 0, cmode := .continuous } }],
+    recomputes := [], maxRecompute := some 2, period := 5, atolCont := 1 / 1000, atolDeadband := 1 / 1000,
+    atolFinite := 1 / 1000, fullEps := 1 / 1000, noise := [] }
+
+/-- a schedule that depends on (relative) time -/
+def exScript : List (Nat × Option (Schedule ℚ)) :=
+  [(1, some [("A", [16, 12])]), (2, some [("A", [10, 6]), ("B", [8, 16])]), (4, some [("B", [16, 8])])]
+
+theorem exSimLate_ok : ShiftOK exSimLate :=
+  ⟨by decide, by decide,
+   by show ∀ x ∈ exSimLate.core.sessions, 0 ≤ x.departure; decide,
+   by show ∀ st ∈ exSimLate.stations, Evse.validRate (atolOf exSimLate st.kind) exSimLate.atolFinite st.kind 0 = true
+      decide +kernel⟩
+
+/-- the hypotheses of `run_shift_aligned` are satisfiable with nothing due in period 0 (so that
+    `run_shift_anchored` does not apply) and a time-dependent schedule: `k = 4`, `m = 2` -/
+example : (∀ e ∈ initPending exSimLate.core, 0 < e.ts) ∧
+    (Sim.run exSimLate (scripted exScript []) 9 (Sim.init exSimLate)).2 = none ∧
+    ∃ r' V, Sim.run (shiftCfgS 4 exSimLate) (scriptedRel 4 exScript []) (4 + 9) (Sim.init (shiftCfgS 4 exSimLate))
+        = (r', none) ∧
+      ShEquiv 4 V (List.replicate 4 (noneRow exSimLate)) (Sim.run exSimLate (scripted exScript []) 9 (Sim.init exSimLate)).1 r' := by
+  have hrun : (Sim.run exSimLate (scripted exScript []) 9 (Sim.init exSimLate)).2 = none := by decide +kernel
+  refine ⟨by decide, hrun, ?_⟩
+  exact run_shift_aligned 4 exSimLate exSimLate_ok (scripted_schedShiftInvariant 4 exScript []).1
+    (scripted_schedShiftInvariant 4 exScript []).2.1 rfl (Or.inr ⟨2, rfl⟩) 8 _ (Prod.ext rfl hrun)
+
+/-- … and what the two runs look like: invocations `[0, 2]` of the idle prefix in front, four zero
+    columns in front of the pilots, same energies -/
+example :
+    (Sim.run exSimLate (scripted exScript []) 9 (Sim.init exSimLate)).1.core.invoked = [0, 1, 2, 4, 6] ∧
+    (Sim.run (shiftCfgS 4 exSimLate) (scriptedRel 4 exScript []) 13 (Sim.init (shiftCfgS 4 exSimLate))).1.core.invoked
+      = [0, 2] ++ [0, 1, 2, 4, 6].map (· + 4) ∧
+    (Sim.run (shiftCfgS 4 exSimLate) (scriptedRel 4 exScript []) 13 (Sim.init (shiftCfgS 4 exSimLate))).1.pilots.rows
+      = (Sim.run exSimLate (scripted exScript []) 9 (Sim.init exSimLate)).1.pilots.rows.map ([0, 0, 0, 0] ++ ·) ∧
+    (Sim.run exSimLate (scripted exScript []) 9 (Sim.init exSimLate)).1.pilots.rows
+      = [[0, 16, 10, 6, 0, 0, 0], [0, 0, 8, 16, 16, 8, 0]] ∧
+    (Sim.run (shiftCfgS 4 exSimLate) (scriptedRel 4 exScript []) 13 (Sim.init (shiftCfgS 4 exSimLate))).1.evs.map (·.delivered)
+      = (Sim.run exSimLate (scripted exScript []) 9 (Sim.init exSimLate)).1.evs.map (·.delivered) := by
+  decide +kernel
+
+end shift_example
+
+section constraints_sim
+open Acn.Sim Acn.SimSorted Acn.Sorted
+variable {K : Type} [Field K] [LinearOrder K] [IsStrictOrderedRing K] [HasExp K] [HasCeilNat K]
+
+/-- CAPSTONE (constraint order).  `Acn.Sim` itself holds no constraint table: the rows of
+    `constraint_matrix` / `magnitudes` reach a run only through the scheduler's feasibility check
+    (`infrastructure_constraints_feasible`, `SimSorted.feasOf`).  Two network descriptions whose
+    (row, limit) pairs are a permutation of each other (`RowsPerm`: same phasors and tolerances) give
+    the SAME scheduler, hence runs of the full simulator with the modelled sorted algorithms (greedy /
+    round robin, every sort, every option) that are literally equal: every output, every fuel, from
+    every state, errors included. -/
+theorem run_perm_constraints {net net' : NetInfo K} (hp : RowsPerm net net') (inf : K) (cfg : Cfg K)
+    (scfg : Config K) (n : Nat) (s : State K) :
+    Sim.run cfg (sortedSched net' inf cfg scfg) n s = Sim.run cfg (sortedSched net inf cfg scfg) n s := by
+  rw [sortedSched_rowsPerm hp]
+
+/-- two constraints added in the other order: `RowsPerm` holds, every sort / algorithm / scenario -/
+example (a b c s : List K) (l1 l2 vt rt inf : K) (cfg : Cfg K) (scfg : Config K) (n : Nat) :
+    Sim.run cfg (sortedSched ⟨[b, a], [l2, l1], c, s, vt, rt⟩ inf cfg scfg) n (Sim.init cfg) =
+      Sim.run cfg (sortedSched ⟨[a, b], [l1, l2], c, s, vt, rt⟩ inf cfg scfg) n (Sim.init cfg) :=
+  run_perm_constraints (net := ⟨[a, b], [l1, l2], c, s, vt, rt⟩) (net' := ⟨[b, a], [l2, l1], c, s, vt, rt⟩)
+    ⟨List.Perm.swap _ _ [], rfl, rfl, rfl, rfl⟩ inf cfg scfg n _
+
+end constraints_sim
 
 section sessions_sim
 open Acn.Sim
@@ -677,7 +903,67 @@ theorem scripted_ignoresEvsePilot (script : List (Nat × Option (Schedule K))) (
 example : Valid exCfg ∧ ([⟨"z", "A", 2, 3⟩, ⟨"y", "B", 0, 2⟩, ⟨"x", "A", 0, 2⟩] : List Session).Perm exCfg.sessions :=
   ⟨exCfg_valid, by decide⟩
 
+open Acn.SimSorted Acn.Sorted in
+/-- CAPSTONE (sessions, the modelled algorithms).  `run_perm_sessions` with the sorting-based algorithms
+    (`SimSorted.sortedSched`: greedy and round robin, all five sort keys, uninterrupted on/off,
+    `estimate_max_rate = False`) or uncontrolled charging as the scheduler — the scheduler of the
+    permuted listing is the adapter built from the PERMUTED configuration.  No hypothesis on ties: the
+    listing order of the sessions never reaches these algorithms (`network.active_evs` is in station
+    order; `Sorted.sortBy` is stable), so ties are broken the same way in both runs. -/
+theorem run_perm_sessions_sorted [HasCeilNat K] (cfg : Cfg K) (evs' : List (Evse.Ev K)) (recs' : List (Int × String))
+    (hv : Valid cfg.core) (he : evs'.Perm cfg.evs) (hrc : recs'.Perm cfg.recomputes)
+    (mk : Cfg K → View K → Except EventCore.Err (Schedule K))
+    (hmk : (∃ net inf scfg, mk = fun c => sortedSched net inf c scfg) ∨ (∃ inf, mk = fun c => uncontrolledSched inf c))
+    (n : Nat) (r : State K) (hrun : Sim.run cfg (mk cfg) n (Sim.init cfg) = (r, none)) :
+    ∃ r', Sim.run { cfg with evs := evs', recomputes := recs' } (mk { cfg with evs := evs', recomputes := recs' }) n
+        (Sim.init { cfg with evs := evs', recomputes := recs' }) = (r', none) ∧
+      CoreEquiv r.core r'.core ∧ NC r r' := by
+  rcases hmk with ⟨net, inf, scfg, rfl⟩ | ⟨inf, rfl⟩
+  · exact run_perm_sessions cfg evs' recs' hv he hrc (sortedSched_ignoresEvsePilot net inf cfg scfg) n r hrun
+  · exact run_perm_sessions cfg evs' recs' hv he hrc (uncontrolledSched_ignoresEvsePilot inf cfg) n r hrun
+
 end sessions_full
+
+section sessions_sorted_example
+open Acn.Sim Acn.SimPerm Acn.SimSorted Acn.Sorted
+
+local instance : HasExp ℚ := ⟨fun x => x⟩
+local instance : HasCeilNat ℚ := ⟨fun x => (Rat.ceil x).toNat⟩
+
+/-- A + B ≤ 30 A, B ≤ 16 A, one phase -/
+def exNet : NetInfo ℚ := ⟨[[1, 1], [0, 1]], [30, 16], [1, 1], [0, 0], 1 / 10000, 1 / 10000000⟩
+
+def exGreedy : Config ℚ :=
+  { algo := .greedy, sort := .edf, uninterrupted := false, estimate := false, inc := 1, eps := 1 / 100, fuel := 12 }
+
+def exRR : Config ℚ := { exGreedy with algo := .roundRobin, sort := .fcfs }
+
+theorem exSimLate_valid : Valid exSimLate.core := by
+  refine ⟨by decide, by decide, ?_, ?_, ?_, ?_, ?_⟩ <;> simp [exSimLate, Cfg.core, sessionOf]
+
+/-- the hypotheses of `run_perm_sessions_sorted` are satisfiable: the two sessions listed the other
+    way round, earliest-deadline-first greedy and first-come-first-served round robin under two
+    constraints that bind (x is throttled to 30 − 16 = 14 A by round robin in period 2, y gets nothing
+    from greedy EDF in periods 2–3), and the runs complete -/
+example :
+    (Sim.run exSimLate (sortedSched exNet 1000000 exSimLate exGreedy) 9 (Sim.init exSimLate)).1.pilots.rows
+      = [[0, 30, 30, 0, 0, 0, 0], [0, 0, 0, 0, 16, 0, 0]] ∧
+    (Sim.run exSimLate (sortedSched exNet 1000000 exSimLate exRR) 9 (Sim.init exSimLate)).1.pilots.rows
+      = [[0, 30, 14, 0, 0, 0, 0], [0, 0, 16, 0, 16, 0, 0]] ∧
+    (∀ scfg ∈ [exGreedy, exRR], ∃ r', Sim.run { exSimLate with evs := exSimLate.evs.reverse, recomputes := [] }
+        (sortedSched exNet 1000000 { exSimLate with evs := exSimLate.evs.reverse, recomputes := [] } scfg) 9
+        (Sim.init { exSimLate with evs := exSimLate.evs.reverse, recomputes := [] }) = (r', none) ∧
+      CoreEquiv (Sim.run exSimLate (sortedSched exNet 1000000 exSimLate scfg) 9 (Sim.init exSimLate)).1.core r'.core ∧
+      NC (Sim.run exSimLate (sortedSched exNet 1000000 exSimLate scfg) 9 (Sim.init exSimLate)).1 r') := by
+  refine ⟨by decide +kernel, by decide +kernel, ?_⟩
+  intro scfg hs
+  have hrun : (Sim.run exSimLate (sortedSched exNet 1000000 exSimLate scfg) 9 (Sim.init exSimLate)).2 = none := by
+    simp only [List.mem_cons, List.mem_nil_iff, or_false] at hs
+    rcases hs with rfl | rfl <;> decide +kernel
+  exact run_perm_sessions_sorted exSimLate exSimLate.evs.reverse [] exSimLate_valid (List.reverse_perm _) (List.Perm.refl _)
+    (fun c => sortedSched exNet 1000000 c scfg) (Or.inl ⟨exNet, 1000000, scfg, rfl⟩) 9 _ (Prod.ext rfl hrun)
+
+end sessions_sorted_example
 
 section ties
 open Acn.Sorted
